@@ -5,7 +5,7 @@
 (* the right caption and no invisible one.                                                      *)
 EXTENDS ArgUsage, Json
 CONSTANTS NArgsMC
-VARIABLES shapes, hid, dep, cont, done
+VARIABLES shapes, hid, dep, cont, nd, done
 Shape == [keys : {"s", "l", "sl"}, mand : BOOLEAN, hidden : BOOLEAN, depr : {"no", "depr", "repl"}]
 OkShape(sh) == ~(sh.mand /\ sh.depr # "no")            \* a deprecated argument cannot be mandatory (refused at definition)
 LongOf(n) == <<108, 111, 110, 103, 48 + n>>            \* "long<n>"
@@ -13,7 +13,7 @@ ArgOf(sh, n) == [s |-> IF sh.keys \in {"s", "sl"} THEN 96 + n ELSE 0, l |-> IF s
                  pos |-> FALSE, kind |-> "int", vm |-> "req", mand |-> sh.mand, card |-> [t |-> "dflt", a |-> 0, b |-> 0],
                  checks |-> <<>>, formats |-> <<>>, sep |-> 44, clear |-> FALSE, sort |-> FALSE, uniq |-> "no", multi |-> FALSE,
                  req |-> <<>>, exc |-> <<>>, init |-> n, depr |-> sh.depr # "no", unset |-> FALSE, cspell |-> 0, grp |-> 0,
-                 hidden |-> sh.hidden, dashes |-> FALSE, mix |-> FALSE, printdef |-> "dflt",
+                 hidden |-> sh.hidden, dashes |-> FALSE, mix |-> FALSE, printdef |-> "dflt", nodesc |-> (n = nd),
                  repl |-> IF sh.depr = "repl" THEN <<45, 45, 110, 101, 119>> ELSE <<>>]
 CfgOf == [abbr |-> TRUE, endvalues |-> FALSE, hcons |-> <<>>, args |-> [n \in 1..NArgsMC |-> ArgOf(shapes[n], n)],
           usagehidden |-> hid, usagedepr |-> dep, usageshort |-> cont = "short", usagelong |-> cont = "long", help |-> cont # "all"]
@@ -22,9 +22,10 @@ Argv == IF cont = "short" THEN <<<<45, 45, 104, 101, 108, 112, 45, 115, 104, 111
         ELSE IF cont = "long" THEN <<<<45, 45, 104, 101, 108, 112, 45, 108, 111, 110, 103>>, <<45, 104>>>> ELSE <<>>
 MCInit == /\ shapes \in {f \in [1..NArgsMC -> Shape] : \A n \in 1..NArgsMC : OkShape(f[n])}
           /\ hid \in BOOLEAN /\ dep \in BOOLEAN /\ cont \in {"all", "short", "long"}
+          /\ nd \in 0..NArgsMC                   \* the argument defined with an empty description (0: none)
           /\ done = FALSE
-MCNext == ~done /\ done' = TRUE /\ UNCHANGED <<shapes, hid, dep, cont>>
-MCSpec == MCInit /\ [][MCNext]_<<shapes, hid, dep, cont, done>>
+MCNext == ~done /\ done' = TRUE /\ UNCHANGED <<shapes, hid, dep, cont, nd>>
+MCSpec == MCInit /\ [][MCNext]_<<shapes, hid, dep, cont, nd, done>>
 ListingOK == ExactlyVisibleOnce(CfgOf, cont) /\ ContOf(Via, Argv) = cont
 \* short-only / long-only display shows exactly the arguments that have such a key
 ContentsOK == \A k \in 1..Len(Listing(CfgOf, cont)) :
